@@ -86,6 +86,10 @@ func main() {
 		os.Exit(0)
 	case "trace":
 		chainprops.Trace(os.Args[2], os.Args[3:])
+	case "racepass":
+		if f := core.RaceBodies(os.Args[2]); f != nil {
+			f()
+		}
 	case "selftest":
 		os.Exit(selftest())
 	case "list":
